@@ -228,7 +228,7 @@ func VX_C08_OverlappingClose(args []int) {
 // session survives both. args: redialTimes, outages[, slow(1: a dial timeout is configured and every failing attempt outlasts it)]
 func VX_C13_TwoOutages(args []int) {
 	R, outages := args[0], args[1]
-	cfg := PeerConfig{RedialTimes: int32(R)}
+	cfg := PeerConfig{RedialTimes: int32(R), RedialInterval: vxRedialEvery}
 	slow := len(args) > 2 && args[2] == 1
 	if slow {
 		// every failing attempt takes longer than the dial timeout (a long outage)
@@ -263,6 +263,12 @@ func VX_C13_TwoOutages(args []int) {
 		failNext = R // the immediate attempt and all retries but the last fail
 		conns[len(conns)-1].end()
 		vxWaitIdle()
+		if slow {
+			// natively every failing attempt really takes its time
+			for k := 0; k < 2*R+2; k++ {
+				vxWaitIdle()
+			}
+		}
 		got, ok := p.GetSession("user-1")
 		vxAssert(ok && got == s && s.Health(), "an outage that needs no more than the configured retries is survived, whatever happened in earlier outages")
 		select {
@@ -346,7 +352,7 @@ func init() { vxRegister("VX_C01_SeqAcrossRedial", VX_C01_SeqAcrossRedial) }
 // never share its sequence number, and every call receives its own reply.
 // args: later (number of calls issued after the redial)
 func VX_C01_SeqAcrossRedial(args []int) {
-	p := NewPeer(PeerConfig{RedialTimes: 2})
+	p := NewPeer(PeerConfig{RedialTimes: 2, RedialInterval: vxRedialEvery})
 	var conns []*vxConn
 	hold := make(chan struct{})
 	dials := 0
@@ -526,7 +532,7 @@ func VX_C02_CallDuringClose(args []int) {
 			return c, nil
 		})
 		defer VXSetDialHook(nil)
-		p := NewPeer(PeerConfig{RedialTimes: 2})
+		p := NewPeer(PeerConfig{RedialTimes: 2, RedialInterval: vxRedialEvery})
 		var st *Status
 		s, st = p.Dial("srv:2")
 		vxAssume(st.OK())
